@@ -165,9 +165,27 @@ def _random(rnd):
     return {'blocks': blocks, 'bursts': bursts, 'order': order}
 
 
+def _big(rnd):
+    """a long chain: one burst takes more than a hundred evaluations (settling must still be
+    one uninterrupted step for every other task)"""
+    n = rnd.choice([130, 160, 450])
+    blocks = [_s('i1', rnd.randint(0, 1)), _s('i2', rnd.randint(0, 1))]
+    for j in range(n):
+        prev = 1 if j == 0 else j + 2
+        k = rnd.choice(['not', 'id', 'id'])
+        blocks.append(_c(f'c{j + 1}', k, [_ref(rnd, prev)]))
+    last = len(blocks)
+    blocks.append(_c(f'c{n + 1}', 'xor', [_ref(rnd, last), _ref(rnd, 2), _ref(rnd, rnd.randint(3, last))]))
+    v = blocks[0]['init']
+    bursts = [[(1, 'put', 1 - v)], [(2, 'put', 1), (1, 'put', v)], [(1, 'put', 1 - v), (2, 'put', 0)]]
+    return {'blocks': blocks, 'bursts': bursts, 'big': True}
+
+
 def stimuli(tier, seed, ctx):
     rnd = random.Random(seed)
     out = []
+    for _ in range(4 if tier == 'quick' else 40):
+        out.append(_big(rnd))
     out += _exhaustive(rnd, 1, tier, seed)
     out += _exhaustive(rnd, 2, tier, seed)
     out += _exhaustive(rnd, 3, tier, seed)
